@@ -1127,6 +1127,11 @@ pub fn run_c16(rep: &mut Report, driver: &str, workers: usize, thorough: bool, s
         texts.extend(brackets_stream(thorough));
         texts.extend(prec_stream());
         texts.extend(strlit_stream(&mut rng, false));
+        // literals of every class at their limits (decimals the library rounds, identifiers shaped like literals: i5x f1e d5x)
+        texts.extend(literal_stream(&mut rng, false));
+        for n in ["i5x", "f5e", "f5e5x", "d1_a", "d5x", "f1e", "i5x.y", "f5e.0", "[f5e, d1_a]", "{i5x: f5e}", "f5e + i5x", "f5e(x)", ":i5x", "x.f5e", "x.i5"] {
+            texts.push(TextCase { text: n.to_string(), tag: "precedence" });
+        }
         let m = texts.len();
         let mut out = vec![String::new(); m];
         let chunk = ((m + workers - 1) / workers.max(1)).max(1);
@@ -1139,7 +1144,7 @@ pub fn run_c16(rep: &mut Report, driver: &str, workers: usize, thorough: bool, s
                 });
             }
         });
-        let mut sr2 = StreamReport::new("accepted-texts", "every sequence of <= 3 (thorough 4) of 30 token representatives, <= 4 (5) of 17, <= 5 (6) of the 9 compound-literal token classes, the precedence texts and the mixed-width string literals: whenever the real parser accepts the text, the rendering of the tree it returned must parse back to an equal tree (predicate on the real code alone; no model involved)", true);
+        let mut sr2 = StreamReport::new("accepted-texts", "every sequence of <= 3 (thorough 4) of 30 token representatives, <= 4 (5) of 17, <= 5 (6) of the 9 compound-literal token classes, the precedence texts, the mixed-width string literals and the literal stream (every literal class at its limits, decimals the library rounds, identifiers shaped like literals): whenever the real parser accepts the text, the rendering of the tree it returned must parse back to an equal tree (predicate on the real code alone; no model involved)", true);
         for (t, o) in texts.iter().zip(out.iter()) {
             sr2.count(&t.text, !o.is_empty());
             sr2.hist("outcome", if o.is_empty() { "text rejected" } else { o.split('\t').next().unwrap_or("") });
